@@ -137,6 +137,12 @@ def pair_step(draw):
     # (seeded/C06-2: a command the management task holds while the mailbox is shut down by a DELETE)
     # "@SEL" stands for whatever mailbox session a has selected when the step runs
     box = draw(st.sampled_from(["@SEL", "@SEL", "@SEL", "mb", "emp", "par/child", "par", "gone", "inbox"]))
+    if draw(st.integers(0, 3)) == 0:
+        # two name-space commands on the same (or a related) mailbox at the same instant, in either order
+        # (seeded/C06-5: DELETE and RENAME taking the name-space lock and the mailbox queue in opposite orders)
+        nb = draw(st.sampled_from(["mb", "emp", "par/child", "par", "@SEL", "gone"]))
+        ns = [f"DELETE {nb}", f"RENAME {nb} {nb}2", f"RENAME {nb} other9", f"CREATE {nb}/kid9", f"CREATE {nb}", f"DELETE {nb}/kid9", f"RENAME inbox {nb}", f"RENAME other9 {nb}"]
+        return {"op": "pair", "line": draw(st.sampled_from(ns)), "line2": draw(st.sampled_from(ns)), "gap": draw(st.sampled_from([0, 0, 0, 1, 2])), "slow": draw(st.booleans())}
     # (the long-running first commands and the slow client were added after seeded/C06-4: an EXAMINE that
     #  arrives while another session's command is still executing on the mailbox)
     pair_first = draw(st.sampled_from([f"DELETE {box}", f"DELETE {box}", f"RENAME {box} {box}2", "EXPUNGE", "CLOSE", f"SELECT {box}",
